@@ -49,17 +49,14 @@ def kMergeTake (lt : Int → Int → Bool) (runs : List (List Elem)) (len : Nat)
 def upperBound (lt : Int → Int → Bool) (run : List Elem) (v : Int) : Nat :=
   (run.takeWhile (fun x => !lt v x.key)).length
 
-def insertKey (lt : Int → Int → Bool) (x : Int) : List Int → List Int
-  | [] => [x]
-  | y :: ys => if lt y x then y :: insertKey lt x ys else x :: y :: ys
-
-/-- `std::(stable_)sort(samples, comp)`: only the key sequence matters for `upper_bound` -/
-def sortKeys (lt : Int → Int → Bool) (l : List Int) : List Int := l.foldr (insertKey lt) []
+/-- `std::(stable_)sort(samples, comp)`: only the key sequence matters for `upper_bound`
+(merge sort: up to 64·64·k samples are sorted per call) -/
+def sortKeys (lt : Int → Int → Bool) (l : List Int) : List Int := l.mergeSort (fun a b => !lt b a)
 
 /-- a chunk: `[first, second)` as offsets into one (non-empty) input sequence -/
 structure Chunk where
-  first : Int
-  second : Int
+  first : Nat
+  second : Nat
   deriving Repr, DecidableEq, Inhabited
 
 structure Params where
@@ -75,157 +72,147 @@ structure Params where
 structure Result where
   out : List Elem
   ret : Int
-  begins : List Int            -- per input sequence (empty ones included), offset of the new `first`
-  windows : List (Int × Int)   -- (target_position, length) of every thread, in thread order
+  begins : List Nat            -- per input sequence (empty ones included), offset of the new `first`
+  windows : List (Nat × Nat)   -- (target_position, length) of every thread, in thread order
   parallel : Bool
   deriving Repr
 
 abbrev R := Except String
 
-/-- `multiway_merge_exact_splitting`: chunks[slab][seq] -/
-def exactSplitting (P : Params) (seqs : List (List Elem)) (size total : Nat) (p : Nat) :
-    R (List (List Chunk)) := do
-  let numSeqs := seqs.length
-  let tight := total == size
-  let c8 : C08.Ctx := { lt := P.lt, runs := (seqs.map fun r => (r.map (·.key)).toArray).toArray }
-  let ranks := equallySplit size p
-  let part (rank : Int) : R (List Int) :=
-    if rank < 0 then throw "multisequence_partition at negative rank"
-    else match C08.runM (C08.partitionM c8 rank.toNat) with
-      | .ok (o, _) => pure o.toList
-      | .error e => throw s!"multisequence_partition: {e}"
-  let mut offsets : Array (Option (List Int)) := Array.replicate p none
-  -- (after `fix: exact splitting with one thread …` the non-tight last partition is computed
-  -- once, behind the loop)
-  for s in List.range (p - 1) do
-    let o ← part (ranks.getD (s + 1) (-1))
-    offsets := offsets.set! s (some o)
-  if !tight then   -- last one also needed and available
-    let o ← part size
-    offsets := offsets.set! (p - 1) (some o)
-  let mut chunks : List (List Chunk) := []
-  for slab in List.range p do
-    let mut row : List Chunk := []
-    for s in List.range numSeqs do
-      let first ← if slab == 0 then pure (0 : Int) else
-        match offsets[slab - 1]! with
-        | some o => pure (o.getD s 0)
-        | none => throw "read of an offsets vector that was never filled"
-      let second ← if !tight || slab < p - 1 then
-          match offsets[slab]! with
-          | some o => pure (o.getD s 0)
-          | none => throw "read of an offsets vector that was never filled"
-        else pure ((seqs.getD s []).length : Int)
-      row := row ++ [⟨first, second⟩]
-    chunks := chunks ++ [row]
-  return chunks
+/-- `multisequence_partition(seqs, rank, offsets)` through the transliterated C08 model; the offsets
+`begin_offsets[i] - seqs[i].first` must not be negative -/
+def partOffsets (lt : Int → Int → Bool) (seqs : List (List Elem)) (rank : Int) : R (List Nat) :=
+  if rank < 0 then throw "multisequence_partition at negative rank"
+  else
+    let c8 : C08.Ctx := { lt := lt, runs := (seqs.map fun r => (r.map (·.key)).toArray).toArray }
+    match C08.runM (C08.partitionM c8 rank.toNat) with
+    | .ok (o, _) =>
+      if o.toList.all (fun x => decide (0 ≤ x)) then pure (o.toList.map Int.toNat)
+      else throw "multisequence_partition returned an offset before the begin of a sequence"
+    | .error e => throw s!"multisequence_partition: {e}"
 
-/-- `multiway_merge_sampling_splitting` -/
-def samplingSplitting (P : Params) (seqs : List (List Elem)) (size total : Nat) (p : Nat) :
-    R (List (List Chunk)) := do
-  let numSeqs := seqs.length
+/-- `multiway_merge_exact_splitting`: the end offsets of every slab's chunks.
+`offsets[s]`, s < p-1, are the partitions at `ranks[s+1]`; the last slab ends at the partition at rank
+`size` when `size < total` (computed once, behind the loop, after `fix: exact splitting with one
+thread …`) and at the ends of the sequences when everything is merged. -/
+def exactEnds (part : Int → R (List Nat)) (seqs : List (List Elem)) (size total p : Nat) : R (List (List Nat)) := do
+  let ranks := equallySplit size p
+  let inner ← (List.range (p - 1)).mapM (fun s => part (ranks.getD (s + 1) (-1)))
+  let last ← if total == size then pure (seqs.map List.length) else part size
+  pure (inner ++ [last])
+
+/-- `seqs_begin[s].first[sample_index]` -/
+def sampleKey (run : List Elem) (j : Nat) : R Int :=
+  match run[j]? with
+  | some e => pure e.key
+  | none => throw "sample index outside the sequence"
+
+/-- `samples[idx]` -/
+def splitterAt (sorted : List Int) (idx : Nat) : R Int :=
+  match sorted[idx]? with
+  | some v => pure v
+  | none => throw "sample read out of bounds"
+
+/-- the sorted samples of `multiway_merge_sampling_splitting` -/
+def samplesOf (P : Params) (seqs : List (List Elem)) (size total ns : Nat) : R (List Int) := do
+  let rows ← seqs.mapM (fun run => (List.range ns).mapM (fun i =>
+    sampleKey run (P.sampleIdx run.length i ns size total)))
+  pure (sortKeys P.lt rows.flatten)
+
+/-- `multiway_merge_sampling_splitting`: the end offsets of every slab's chunks
+(`upper_bound` of `samples[ns * k * (slab+1) / p]`; the last slab ends at the ends of the sequences) -/
+def samplingEnds (P : Params) (seqs : List (List Elem)) (size total p : Nat) : R (List (List Nat)) := do
   let ns := p * P.osf
-  let mut samples : List Int := []
-  for s in List.range numSeqs do
-    let run := seqs.getD s []
-    for i in List.range ns do
-      let idx := P.sampleIdx run.length i ns size total
-      match run[idx]? with
-      | some e => samples := samples ++ [e.key]
-      | none => throw "sample index outside the sequence"
-  let sorted := (sortKeys P.lt samples).toArray
-  let mut chunks : List (List Chunk) := []
-  for slab in List.range p do
-    let mut row : List Chunk := []
-    for s in List.range numSeqs do
-      let run := seqs.getD s []
-      let first ← if slab > 0 then
-          match sorted[ns * numSeqs * slab / p]? with
-          | some v => pure (upperBound P.lt run v : Int)
-          | none => throw "sample read out of bounds"
-        else pure (0 : Int)
-      let second ← if slab + 1 < p then
-          match sorted[ns * numSeqs * (slab + 1) / p]? with
-          | some v => pure (upperBound P.lt run v : Int)
-          | none => throw "sample read out of bounds"
-        else pure (run.length : Int)
-      row := row ++ [⟨first, second⟩]
-    chunks := chunks ++ [row]
-  return chunks
+  let sorted ← samplesOf P seqs size total ns
+  let inner ← (List.range (p - 1)).mapM (fun slab => do
+    let v ← splitterAt sorted (ns * seqs.length * (slab + 1) / p)
+    pure (seqs.map fun run => upperBound P.lt run v))
+  pure (inner ++ [seqs.map List.length])
+
+/-- chunks[slab][seq]: a slab begins where the previous one ends (slab 0 at the begins) -/
+def chunkTable : List Nat → List (List Nat) → List (List Chunk)
+  | _, [] => []
+  | prev, e :: es => List.zipWith Chunk.mk prev e :: chunkTable e es
 
 /-- elements `[first, second)` of a run; a reversed or out-of-range chunk is a failure -/
 def sliceChunk (run : List Elem) (c : Chunk) : R (List Elem) :=
-  if c.first < 0 || c.second < c.first || c.second > run.length then
+  if c.second < c.first || c.second > run.length then
     throw "chunk is not a sub-range of its sequence"
-  else pure ((run.drop c.first.toNat).take (c.second - c.first).toNat)
+  else pure ((run.take c.second).drop c.first)
+
+/-- one thread: `target_position`, `local_size`, and the merge of
+`min(local_size, size - target_position)` elements of its chunks -/
+def threadPart (lt : Int → Int → Bool) (seqs : List (List Elem)) (size : Nat) (row : List Chunk) :
+    R (Nat × List Elem) := do
+  let parts ← (List.zip seqs row).mapM (fun rc => sliceChunk rc.1 rc.2)
+  let tp := (row.map (·.first)).sum
+  let localSize := (row.map (fun c => c.second - c.first)).sum
+  if tp > size then throw "negative merge length"
+  else pure (tp, kMergeTake lt parts (min localSize (size - tp)))
+
+/-- write `es` to the positions `k, k+1, …` of the output; a position may be written only once -/
+def place : List (Option Elem) → Nat → List Elem → R (List (Option Elem))
+  | out, _, [] => pure out
+  | out, k, e :: es =>
+    match out[k]? with
+    | none => throw "write outside the output range"
+    | some (some _) => throw "output position written twice"
+    | some none => place (out.set k (some e)) (k + 1) es
+
+def placeAll : List (Option Elem) → List (Nat × List Elem) → R (List (Option Elem))
+  | out, [] => pure out
+  | out, (tp, es) :: rest => do
+    let out ← place out tp es
+    placeAll out rest
 
 /-- place the thread windows into the output; every position must be written exactly once -/
-def assemble (size : Nat) (wins : List (Int × List Elem)) : R (List Elem) := do
-  let mut out : Array (Option Elem) := Array.replicate size none
-  for (tp, es) in wins do
-    let mut k : Int := tp
-    for e in es do
-      if k < 0 || k ≥ size then throw "write outside the output range"
-      match out[k.toNat]! with
-      | some _ => throw "output position written twice"
-      | none => out := out.set! k.toNat (some e)
-      k := k + 1
-  let mut res : List Elem := []
-  for o in out.toList do
-    match o with
-    | some e => res := res ++ [e]
-    | none => throw "output position never written"
-  return res
+def assemble (size : Nat) (wins : List (Nat × List Elem)) : R (List Elem) := do
+  let out ← placeAll (List.replicate size none) wins
+  out.mapM (fun o => match o with
+    | some e => pure e
+    | none => throw "output position never written")
+
+/-- `ii->first = chunks[num_threads - 1][count_seqs++].second` for the non-empty sequences -/
+def scatterBegins : List (List Elem) → List Nat → List Nat
+  | [], _ => []
+  | r :: rs, os =>
+    if r.isEmpty then 0 :: scatterBegins rs os
+    else match os with
+      | [] => 0 :: scatterBegins rs []
+      | o :: os => o :: scatterBegins rs os
+
+/-- the threads and the final update of the input begins, for the slab ends computed by the splitter -/
+def pmmRun (lt : Int → Int → Bool) (seqsAll seqs : List (List Elem)) (size : Nat) (ends : List (List Nat)) :
+    R Result := do
+  let rows := chunkTable (List.replicate seqs.length 0) ends
+  let wins ← rows.mapM (threadPart lt seqs size)
+  let out ← assemble size wins
+  pure { out := out, ret := size,
+         begins := scatterBegins seqsAll (ends.getLastD []),
+         windows := wins.map (fun w => (w.1, w.2.length)), parallel := true }
 
 /-- `parallel_multiway_merge_base<Stable>` on the caller's sequences (some possibly empty) -/
-def pmmBase (P : Params) (seqsAll : List (List Elem)) (size : Nat) : R Result := do
+def pmmBase (P : Params) (seqsAll : List (List Elem)) (size : Nat) : R Result :=
   let seqs := seqsAll.filter (fun r => !r.isEmpty)
   let total := (seqs.map List.length).sum
-  let numSeqs := seqs.length
-  let begins0 : List Int := seqsAll.map fun _ => 0
   -- (after `fix: forced parallel multiway merge of zero elements`: size == 0 returns here too)
-  if total == 0 || numSeqs == 0 || size == 0 then
-    return { out := [], ret := 0, begins := begins0, windows := [], parallel := true }
-  let p := if P.threads > total then total else P.threads
-  if p == 0 then throw "zero threads"
-  -- (after `fix: parallel multiway merge with sampling splitting and size < total`: sampling only
-  -- when everything is merged)
-  let chunks ← if !P.exact && size == total then samplingSplitting P seqs size total p
-               else exactSplitting P seqs size total p
-  -- the threads
-  let mut wins : List (Int × List Elem) := []
-  let mut windows : List (Int × Int) := []
-  for iam in List.range p do
-    let row := chunks.getD iam []
-    let mut tp : Int := 0
-    let mut localSize : Int := 0
-    let mut parts : List (List Elem) := []
-    for s in List.range numSeqs do
-      let c := row.getD s default
-      tp := tp + c.first
-      localSize := localSize + (c.second - c.first)
-      parts := parts ++ [← sliceChunk (seqs.getD s []) c]
-    let len := min localSize ((size : Int) - tp)
-    if len < 0 then throw "negative merge length"
-    windows := windows ++ [(tp, len)]
-    wins := wins ++ [(tp, kMergeTake P.lt parts len.toNat)]
-  let out ← assemble size wins
-  -- update ends of sequences: chunks[num_threads - 1][count_seqs++].second
-  let last := chunks.getD (p - 1) []
-  let mut begins : List Int := []
-  let mut cnt := 0
-  for r in seqsAll do
-    if r.isEmpty then begins := begins ++ [0]
+  if total == 0 || seqs.length == 0 || size == 0 then
+    pure { out := [], ret := 0, begins := seqsAll.map (fun _ => 0), windows := [], parallel := true }
+  else
+    let p := if P.threads > total then total else P.threads
+    if p == 0 then throw "zero threads"
+    -- (after `fix: parallel multiway merge with sampling splitting and size < total`: sampling only
+    -- when everything is merged)
+    else if !P.exact && size == total then
+      samplingEnds P seqs size total p >>= pmmRun P.lt seqsAll seqs size
     else
-      begins := begins ++ [(last.getD cnt default).second]
-      cnt := cnt + 1
-  return { out := out, ret := size, begins := begins, windows := windows, parallel := true }
+      exactEnds (partOffsets P.lt seqs) seqs size total p >>= pmmRun P.lt seqsAll seqs size
 
 /-- sequential fall-back `multiway_merge_base<Stable, Sentinels>` by its specification -/
 def seqMerge (P : Params) (seqsAll : List (List Elem)) (size : Nat) : Result :=
   let out := kMergeTake P.lt seqsAll size
   { out := out, ret := out.length,
-    begins := (List.range seqsAll.length).map fun s => ((out.filter (fun e => e.seq == s)).length : Int),
+    begins := (List.range seqsAll.length).map fun s => (out.filter (fun e => e.seq == s)).length,
     windows := [(0, out.length)], parallel := false }
 
 /-- the switch of the four front ends -/
